@@ -13,3 +13,5 @@ open Just.Props.C04
 #print axioms override_skips_expression
 #print axioms own_assignment_first
 #print axioms each_assignment_once
+#print axioms clean_idempotent
+#print axioms clean_result
